@@ -8,6 +8,7 @@
   The Unicode name database behind `\N{…}` is a parameter (`UniDb`).
 -/
 import MitmVerif.Model.C44
+import MitmVerif.Gen.C45
 namespace MitmVerif.C45
 
 abbrev Str := List Nat
@@ -254,10 +255,14 @@ inductive ArgTyT
   | int        -- `_IntType.parse`  = `int(s)`
   | bool       -- `_BoolType.parse` = "true" / "false", anything else ValueError
   | path       -- `_PathType.parse` = `os.path.expanduser(s)`
+  | strSeq     -- `_StrSeqType.parse` = `[x.strip() for x in s.split(",")]`
+  | cutSpec    -- `_CutSpecType.parse` = `s.split(",")`
+  | marker     -- `_MarkerType.parse`: "true" ↦ ":default:", "false" ↦ "", an emoji name ↦ itself, else ValueError
+  | choice (opts : List Str)   -- `_ChoiceType.parse`: `opts` = what the type's options command returns
   deriving DecidableEq
 
 inductive TVal
-  | s (x : Str) | i (x : Int) | b (x : Bool)
+  | s (x : Str) | i (x : Int) | b (x : Bool) | l (xs : List Str)
   deriving DecidableEq
 
 /-- what `os.path.expanduser` reads from the process: `$HOME` (or, when unset, the current user's pw_dir; `none` when
@@ -288,12 +293,35 @@ def expandUser (env : Env) (p : Str) : Option Str :=
 def strTrueC : Str := "true".toList.map Char.toNat
 def strFalseC : Str := "false".toList.map Char.toNat
 
+/-- `s.split(",")` -/
+def splitComma : Str → List Str
+  | [] => [[]]
+  | c :: r =>
+    if c == 44 then [] :: splitComma r
+    else match splitComma r with
+      | h :: t => (c :: h) :: t
+      | [] => [[c]]
+
+/-- `str.isspace()` of one character: TAB..CR, FS..US, space, and the non-ASCII ones of `Gen.C44.spaces` -/
+def isSpacePy (c : Nat) : Bool := (9 ≤ c && c ≤ 13) || (28 ≤ c && c ≤ 32) || (c > 127 && Gen.C44.spaces.contains c)
+
+/-- `str.strip()` -/
+def pyStrip (s : Str) : Str := ((s.dropWhile isSpacePy).reverse.dropWhile isSpacePy).reverse
+
+def markerDefault : Str := ":default:".toList.map Char.toNat
+
 def parseArgT (db : UniDb) (env : Env) : ArgTyT → Str → Option TVal
   | .str, s => (strParse db s).map TVal.s
   | .verbatim, s => some (.s s)
   | .int, s => (MitmVerif.C44.pyInt s).map TVal.i
   | .bool, s => if s = strTrueC then some (.b true) else if s = strFalseC then some (.b false) else none
   | .path, s => (expandUser env s).map TVal.s
+  | .strSeq, s => some (.l ((splitComma s).map pyStrip))
+  | .cutSpec, s => some (.l (splitComma s))
+  | .marker, s =>
+    if s = strTrueC then some (.s markerDefault) else if s = strFalseC then some (.s [])
+    else if Gen.C45.emojiNames.contains s then some (.s s) else none
+  | .choice opts, s => if opts.contains s then some (.s s) else none
 
 structure SigT where
   params : List ArgTyT
@@ -333,6 +361,39 @@ def executeT (db : UniDb) (env : Env) (cmds : Str → Option SigT) (line : Str) 
       | some tys =>
         match collectT (List.zipWith (parseArgT db env) tys args) with
         | some as => .call name as
+        | none => .badArg
+
+/-! ### parameter defaults -/
+
+/-- a signature whose last `defaults.length` positional parameters have default values -/
+structure SigD where
+  params : List ArgTyT
+  defaults : List TVal
+  varargs : Option ArgTyT
+
+/-- `signature.bind(*args)` + `apply_defaults()` for `n` arguments: the types the given arguments are converted
+    with, and the default values that fill the missing trailing parameters -/
+def bindD (sig : SigD) (n : Nat) : Option (List ArgTyT × List TVal) :=
+  let np := sig.params.length
+  if n + sig.defaults.length < np then none
+  else if n ≤ np then some (sig.params.take n, sig.defaults.drop (sig.defaults.length - (np - n)))
+  else match sig.varargs with
+    | none => none
+    | some t => some (sig.params ++ List.replicate (n - np) t, [])
+
+/-- `CommandManager.execute(line)` for commands with parameter defaults -/
+def executeD (db : UniDb) (env : Env) (cmds : Str → Option SigD) (line : Str) : ExecT :=
+  match (argTokens line).map unquote with
+  | [] => .noCommand
+  | name :: args =>
+    match cmds name with
+    | none => .unknown
+    | some sig =>
+      match bindD sig args.length with
+      | none => .arity
+      | some (tys, dflts) =>
+        match collectT (List.zipWith (parseArgT db env) tys args) with
+        | some as => .call name (as ++ dflts)
         | none => .badArg
 
 /-- `execute` from a given parse (the `ParseResult` list `parse_partial` hands out / keeps cached): what the
